@@ -10,7 +10,7 @@ From the *source text* (ast, never import):
   * fieldcompare/mesh/_structured_mesh.py: the `[CellTypes.a, CellTypes.b, CellTypes.c]` lists of the `_cell_type`
                                            methods of StructuredMesh / RectilinearMesh / ImageMesh
 
-Rendered into `namespace Fc.Gen`:
+Rendered into `namespace Fc.Gen.C16`:
   cellTypeTable : List (Nat × String)      compatIdPairs : List (Nat × Nat)     compatPairs : List (String × String)
   reorderQuadPixel reorderHexVoxel : List Nat        meshDefaultRelTol : Nat  (units of 2^-1074, exact)
   structuredCellTypes rectilinearCellTypes imageCellTypes : List String
@@ -114,7 +114,7 @@ def _s(x: str) -> str:
 
 def render(f: dict) -> str:
     name = dict(f["table"])
-    out = []
+    out = ["namespace C16"]
     out.append("/-- `_CELL_TYPE_INDEX_TO_STR` of fieldcompare/mesh/_cell_type_maps.py -/")
     out.append("def cellTypeTable : List (Nat × String) := [")
     out.append(",\n".join(f"  ({i}, {_s(n)})" for i, n in f["table"]))
@@ -130,4 +130,5 @@ def render(f: dict) -> str:
     for k, nm in (("structured", "structuredCellTypes"), ("rectilinear", "rectilinearCellTypes"),
                   ("image", "imageCellTypes")):
         out.append(f"def {nm} : List String := [" + ", ".join(_s(x) for x in f[k]) + "]")
+    out.append("end C16")
     return "\n".join(out) + "\n"
